@@ -99,11 +99,11 @@ def main(ck):
     binp = ck.go_build("./cmd/c01", "c01")
     if not binp:
         return
-    n = 12 if ck.tier == "quick" else 150
+    n = 10 if ck.tier == "quick" else 150
     if ck.replay:
         rp = json.load(open(ck.replay))
         hf = os.path.join(ck.work, "replay_history.json")
-        json.dump({"case": rp["case"], "nwal": rp["nwal"], "nser": rp["nser"], "ops": rp["ops"]}, open(hf, "w"))
+        json.dump({"case": rp["case"], "nwal": rp["nwal"], "nser": rp["nser"], "pre": rp.get("pre", 0), "ops": rp["ops"]}, open(hf, "w"))
         rc, out = ck.run([binp, "1", hf], timeout=3000)
     else:
         rc, out = ck.run([binp, str(n)], timeout=6000)
@@ -195,7 +195,7 @@ def main(ck):
             else:
                 nviol += 1
                 if nviol <= 3:
-                    ck.violation({"kind": "direct-oracle", "what": what, "case": h["case"], "nwal": h["nwal"], "nser": h["nser"], "ops": h["ops"],
+                    ck.violation({"kind": "direct-oracle", "what": what, "case": h["case"], "nwal": h["nwal"], "nser": h["nser"], "pre": h.get("pre", 0), "ops": h["ops"],
                                   "crash": {"at": im["at"], "during_op": im["op"], "acked_ops": im["acked"], "inflight_op": im["inflight"],
                                             "torn_bytes": im["torn"], "recovery_mutations_before_second_crash": im["sub"],
                                             "live_wal_parts": im["parts"], "pending_index_txn": im.get("txn")},
